@@ -801,6 +801,48 @@ def faults_inside_other_constructs(col, rng, n_exc):
                 judge_escape(col, e, got, kw, cell, 'fault raised by a callable invoked by %s' % name, 'construct ' + name)
 
 
+def wrapping_does_not_depend_on_earlier_errors(col):
+    """"whenever that class can be rebuilt from its args the raised object is also a GlomError" is decided per error, by THAT error's
+    args: an earlier error of the same class that could not be rebuilt (its args were changed after construction), or an earlier error
+    of another class with the same name, changes nothing for the next one"""
+    class NeedTwo(Exception):
+        def __init__(self, a, b):
+            Exception.__init__(self, a, b)
+
+    def mk_named(init):
+        return type('ParseError', (Exception,), {'__init__': init})
+    ParseA = mk_named(lambda self, msg, pos: Exception.__init__(self, msg, pos))
+    ParseB = mk_named(lambda self, text: Exception.__init__(self, text))
+
+    def altered():
+        e = NeedTwo(1, 2)
+        e.args = e.args + ('while reading x',)
+        return e
+
+    def emptied():
+        e = NeedTwo(1, 2)
+        e.args = ()
+        return e
+    seq = [('NeedTwo with args extended after construction', altered, False), ('NeedTwo(3, 4) afterwards', lambda: NeedTwo(3, 4), True),
+           ('NeedTwo with args emptied', emptied, False), ('NeedTwo(5, 6) afterwards', lambda: NeedTwo(5, 6), True),
+           ("first class named ParseError (msg, pos)", lambda: ParseA('bad token', 7), True), ("second class named ParseError (text)", lambda: ParseB("cannot parse 'a;b'"), True),
+           ("first class again", lambda: ParseA('bad token', 9), True), ('KeyError after all that', lambda: KeyError('k'), True)]
+    for entry_name, entry in ENTRY_POINTS:
+        for desc, mk, want_glom in seq:
+            e = mk()
+
+            def boom(t, e=e):
+                raise e
+            got = call_base(entry, {'a': 1}, ('a', boom))
+            col.case(('wrapping-sequence', entry_name, desc), True)
+            col.count('fault_runs')
+            ok = (not got.ok) and isinstance(got.exc, type(e)) and got.exc.args == e.args and isinstance(got.exc, GlomError) == want_glom
+            if not ok:
+                col.violation('C04/wrapping-depends-on-earlier-errors', '%s via %s: raised %r inside the spec, glom() raised %r (%s) ; expected an instance of %s with the same args that '
+                              'is %sa GlomError' % (desc, entry_name, e, getattr(got, 'exc', got), type(getattr(got, 'exc', None)).__mro__[:3] if not got.ok else 'returned',
+                                                    type(e).__name__, '' if want_glom else 'not '), None)
+
+
 def run(ctx):
     col, rng = ctx.col, ctx.rng
     col.require('faults_injected', 5000)
@@ -809,6 +851,7 @@ def run(ctx):
     if ctx.shard == 0:
         glom_detected(col)
         default_object_is_returned_itself(col)
+        wrapping_does_not_depend_on_earlier_errors(col)
         col.require('glom_detected_runs', 500)
     argument_position_faults(col, rng, 1 if not ctx.thorough else 6)
     col.require('argument_position_faults', 500)
